@@ -450,6 +450,12 @@ class Parser:
             self.sym("(")
             while not self.is_sym(")"):
                 f = self.ident()
+                if self.is_sym("("):
+                    # conversion on the formal side of an output association:  unsigned(y) => actual
+                    self.sym("(")
+                    inner = self.ident()
+                    self.sym(")")
+                    f = ("conv", f, inner)
                 self.sym("=>")
                 ports.append((f, self.expr()))
                 if not self.accept_sym(","):
